@@ -579,9 +579,12 @@ def replay(path):
     sw, md = render(mode, ops)
     impl = vlib.run_lines(build_impl(), [sw])[0]
     try:
-        model = vlib.run_lines(build_model(), [md])[0]
+        mexe = build_model()
+        model = vlib.run_lines(mexe, [md])[0]
+        # the model of the code as found (without fixes/C06-1.patch), for comparison
+        model_u = vlib.run_lines(mexe, [md[0] + "u" + md[1:]])[0]
     except vlib.BuildError:
-        model = "(model unavailable)"
+        model = model_u = "(model unavailable)"
     cleanup_private()
     body, problems = canon(impl)
     verdict = problems + (oracle(mode, ops, body) if body is not None else [])
@@ -589,5 +592,7 @@ def replay(path):
     print("scenario: %s" % sw)
     print("impl    : %s" % (" ".join(body) if body is not None else impl))
     print("model   : %s" % model)
+    if model_u != model:
+        print("model of the code without fixes/C06-1.patch: %s" % model_u)
     print("property: %s" % ("holds" if not verdict else "; ".join(verdict)))
     return 0 if not verdict and (body is None or " ".join(body) == model) else 1
